@@ -108,8 +108,8 @@ package zerolog
 // Buffers (ghost vocabulary: see internal/json/zz_contracts_verif.go)
 
 //@ spec listbuf(b bytes) bool = lex(b) == 0 && stk(b) == STK_EMPTY && ((len(b) == 0 && mode(b) == TOP) || (len(b) > 0 && (mode(b) == DONE || mode(b) == LIST_NEXT)))
-//@ spec eventbuf(b bytes) bool = objbuf(b) && stk(b) == STK_OBJ
-//@ spec ctxbuf(b bytes) bool = objbuf(b) && stk(b) == STK_OBJ && ((len(b) > 1) == (mode(b) == OBJ_NEXT))
+//@ spec eventbuf(b bytes) bool = objbuf(b) && stk(b) == STK_OBJ && b[0] == '{'
+//@ spec ctxbuf(b bytes) bool = objbuf(b) && stk(b) == STK_OBJ && b[0] == '{' && ((len(b) > 1) == (mode(b) == OBJ_NEXT))
 
 // Configuration the properties take as given (C01: time layouts without quote,
 // backslash or control characters; marshal functions present).
@@ -157,6 +157,7 @@ package zerolog
 //@   modifies e.buf, e.level, e.stack, e.skipFrame, e.ctx
 //@   requires e != nil && eventbuf(e.buf)
 //@   ensures eventbuf(e.buf) && prefix(e.buf, old(e.buf))
+//@   ensures same(e.buf, old(e.buf)) || (mode(e.buf) == OBJ_NEXT && len(e.buf) > old(len(e.buf)))
 
 //@ func (*Event).msg(e, msg)
 //@   props C01 C03 C14
@@ -191,6 +192,7 @@ package zerolog
 //@   modifies e.buf, e.level, e.stack, e.skipFrame, e.ctx
 //@   requires e != nil && objbuf(e.buf)
 //@   ensures objbuf(e.buf) && stk(e.buf) == old(stk(e.buf)) && prefix(e.buf, old(e.buf))
+//@   ensures same(e.buf, old(e.buf)) || (mode(e.buf) == OBJ_NEXT && len(e.buf) > old(len(e.buf)))
 
 //@ iface LogArrayMarshaler.MarshalZerologArray(m, a)
 //@   modifies a.buf
@@ -201,6 +203,7 @@ package zerolog
 //@   modifies e.buf, e.level, e.stack, e.skipFrame, e.ctx
 //@   requires e != nil && objbuf(e.buf)
 //@   ensures objbuf(e.buf) && stk(e.buf) == old(stk(e.buf)) && prefix(e.buf, old(e.buf))
+//@   ensures same(e.buf, old(e.buf)) || (mode(e.buf) == OBJ_NEXT && len(e.buf) > old(len(e.buf)))
 
 // ---------------------------------------------------------------------------
 // encoder_json.go
@@ -298,6 +301,7 @@ package zerolog
 //@   flag noovf
 //@   requires e != nil ==> objbuf(e.buf)
 //@   ensures e != nil ==> objbuf(e.buf) && stk(e.buf) == old(stk(e.buf)) && prefix(e.buf, old(e.buf))
+//@   ensures e != nil ==> same(e.buf, old(e.buf)) || (mode(e.buf) == OBJ_NEXT && len(e.buf) > old(len(e.buf)))
 //@   ensures res == e
 
 //@ func appendFields(dst, fields, stack) res
@@ -349,3 +353,147 @@ package zerolog
 //@ func (Context).EmbedObject(c, obj) res
 //@   flag frontend
 //@   flag replay context_embed
+
+// ---------------------------------------------------------------------------
+// log.go: loggers and event creation
+
+//@ spec logctx(b bytes) bool = b == nil || ctxbuf(b)
+//@ track Logger.newEvent
+
+//@ func New(w) res
+//@   props C03 C05
+//@   arith int
+//@   ensures res.w != nil && res.level == TraceLevel && res.context == nil && res.hooks == nil && res.sampler == nil && !res.stack && res.ctx == nil
+
+//@ func (*Logger).newEvent(l, level, done) res
+//@   props C01 C03 C04 C05
+//@   arith int
+//@   requires l != nil && gLevel != nil && disableSampling != nil && logctx(l.context)
+//@   ensures [C04] ncalls(Logger.should) == old(ncalls(Logger.should)) + 1 && callarg(Logger.should, old(ncalls(Logger.should)), 0) == l && callarg(Logger.should, old(ncalls(Logger.should)), 1) == level
+//@   ensures [C04] (res == nil) == !callres(Logger.should, old(ncalls(Logger.should)), 0)
+//@   ensures [C04] res == nil ==> ncalls(done) == old(ncalls(done)) + ite(done != nil, 1, 0) && ncalls(newEvent) == old(ncalls(newEvent))
+//@   ensures [C04] res != nil ==> ncalls(done) == old(ncalls(done))
+//@   ensures [C03,C05] res != nil ==> res.w == l.w && res.level == level && res.done == done && same(res.ch, l.hooks) && res.ctx == l.ctx && res.stack == l.stack && res.skipFrame == 0
+//@   ensures [C01,C03] res != nil ==> eventbuf(res.buf) && ((len(res.buf) > 1) == (mode(res.buf) == OBJ_NEXT))
+
+//@ func (*Logger).Trace(l) res
+//@   props C04
+//@   arith int
+//@   requires l != nil && gLevel != nil && disableSampling != nil && logctx(l.context)
+//@   ensures ncalls(Logger.newEvent) == old(ncalls(Logger.newEvent)) + 1 && callarg(Logger.newEvent, old(ncalls(Logger.newEvent)), 0) == l && callarg(Logger.newEvent, old(ncalls(Logger.newEvent)), 1) == TraceLevel && callarg(Logger.newEvent, old(ncalls(Logger.newEvent)), 2) == nil && res == callres(Logger.newEvent, old(ncalls(Logger.newEvent)), 0)
+
+//@ func (*Logger).Debug(l) res
+//@   props C04
+//@   arith int
+//@   requires l != nil && gLevel != nil && disableSampling != nil && logctx(l.context)
+//@   ensures ncalls(Logger.newEvent) == old(ncalls(Logger.newEvent)) + 1 && callarg(Logger.newEvent, old(ncalls(Logger.newEvent)), 0) == l && callarg(Logger.newEvent, old(ncalls(Logger.newEvent)), 1) == DebugLevel && callarg(Logger.newEvent, old(ncalls(Logger.newEvent)), 2) == nil && res == callres(Logger.newEvent, old(ncalls(Logger.newEvent)), 0)
+
+//@ func (*Logger).Info(l) res
+//@   props C04
+//@   arith int
+//@   requires l != nil && gLevel != nil && disableSampling != nil && logctx(l.context)
+//@   ensures ncalls(Logger.newEvent) == old(ncalls(Logger.newEvent)) + 1 && callarg(Logger.newEvent, old(ncalls(Logger.newEvent)), 0) == l && callarg(Logger.newEvent, old(ncalls(Logger.newEvent)), 1) == InfoLevel && callarg(Logger.newEvent, old(ncalls(Logger.newEvent)), 2) == nil && res == callres(Logger.newEvent, old(ncalls(Logger.newEvent)), 0)
+
+//@ func (*Logger).Warn(l) res
+//@   props C04
+//@   arith int
+//@   requires l != nil && gLevel != nil && disableSampling != nil && logctx(l.context)
+//@   ensures ncalls(Logger.newEvent) == old(ncalls(Logger.newEvent)) + 1 && callarg(Logger.newEvent, old(ncalls(Logger.newEvent)), 0) == l && callarg(Logger.newEvent, old(ncalls(Logger.newEvent)), 1) == WarnLevel && callarg(Logger.newEvent, old(ncalls(Logger.newEvent)), 2) == nil && res == callres(Logger.newEvent, old(ncalls(Logger.newEvent)), 0)
+
+//@ func (*Logger).Error(l) res
+//@   props C04
+//@   arith int
+//@   requires l != nil && gLevel != nil && disableSampling != nil && logctx(l.context)
+//@   ensures ncalls(Logger.newEvent) == old(ncalls(Logger.newEvent)) + 1 && callarg(Logger.newEvent, old(ncalls(Logger.newEvent)), 0) == l && callarg(Logger.newEvent, old(ncalls(Logger.newEvent)), 1) == ErrorLevel && callarg(Logger.newEvent, old(ncalls(Logger.newEvent)), 2) == nil && res == callres(Logger.newEvent, old(ncalls(Logger.newEvent)), 0)
+
+//@ func (*Logger).Log(l) res
+//@   props C04
+//@   arith int
+//@   requires l != nil && gLevel != nil && disableSampling != nil && logctx(l.context)
+//@   ensures ncalls(Logger.newEvent) == old(ncalls(Logger.newEvent)) + 1 && callarg(Logger.newEvent, old(ncalls(Logger.newEvent)), 0) == l && callarg(Logger.newEvent, old(ncalls(Logger.newEvent)), 1) == NoLevel && callarg(Logger.newEvent, old(ncalls(Logger.newEvent)), 2) == nil && res == callres(Logger.newEvent, old(ncalls(Logger.newEvent)), 0)
+
+//@ func (*Logger).Fatal(l) res
+//@   props C04
+//@   arith int
+//@   requires l != nil && gLevel != nil && disableSampling != nil && logctx(l.context)
+//@   ensures ncalls(Logger.newEvent) == old(ncalls(Logger.newEvent)) + 1 && callarg(Logger.newEvent, old(ncalls(Logger.newEvent)), 0) == l && callarg(Logger.newEvent, old(ncalls(Logger.newEvent)), 1) == FatalLevel && callarg(Logger.newEvent, old(ncalls(Logger.newEvent)), 2) != nil && res == callres(Logger.newEvent, old(ncalls(Logger.newEvent)), 0)
+
+//@ func (*Logger).Panic(l) res
+//@   props C04
+//@   arith int
+//@   requires l != nil && gLevel != nil && disableSampling != nil && logctx(l.context)
+//@   ensures ncalls(Logger.newEvent) == old(ncalls(Logger.newEvent)) + 1 && callarg(Logger.newEvent, old(ncalls(Logger.newEvent)), 0) == l && callarg(Logger.newEvent, old(ncalls(Logger.newEvent)), 1) == PanicLevel && callarg(Logger.newEvent, old(ncalls(Logger.newEvent)), 2) != nil && res == callres(Logger.newEvent, old(ncalls(Logger.newEvent)), 0)
+
+//@ func (*Logger).WithLevel(l, level) res
+//@   props C04
+//@   arith int
+//@   requires l != nil && gLevel != nil && disableSampling != nil && logctx(l.context)
+//@   ensures level == Disabled ==> res == nil && ncalls(Logger.newEvent) == old(ncalls(Logger.newEvent))
+//@   ensures level != Disabled ==> ncalls(Logger.newEvent) == old(ncalls(Logger.newEvent)) + 1 && callarg(Logger.newEvent, old(ncalls(Logger.newEvent)), 0) == l && callarg(Logger.newEvent, old(ncalls(Logger.newEvent)), 1) == level && callarg(Logger.newEvent, old(ncalls(Logger.newEvent)), 2) == nil && res == callres(Logger.newEvent, old(ncalls(Logger.newEvent)), 0)
+
+//@ func (Logger).With(l) res
+//@   props C01 C03 C05
+//@   arith int
+//@   requires logctx(l.context)
+//@   ensures ctxbuf(res.l.context)
+//@   ensures [C05] fresh(res.l.context)
+//@   ensures [C03,C05] l.context != nil ==> eqbytes(res.l.context, l.context) && mode(res.l.context) == mode(l.context)
+//@   ensures [C03,C05] l.context == nil ==> len(res.l.context) == 1 && mode(res.l.context) == OBJ_FIRST
+//@   ensures [C03,C05] res.l.w == l.w && res.l.level == l.level && res.l.sampler == l.sampler && same(res.l.hooks, l.hooks) && res.l.stack == l.stack && res.l.ctx == l.ctx
+
+//@ func (Logger).Output(l, w) res
+//@   props C03 C05
+//@   arith int
+//@   flag initialises Logger
+//@   flag replay output_ctx
+//@   requires logctx(l.context)
+//@   ensures res.w != nil && res.level == l.level && res.sampler == l.sampler && res.stack == l.stack
+//@   ensures [C05] res.ctx == l.ctx
+//@   ensures logctx(res.context) && eqbytes(res.context, l.context) && (l.context == nil) == (res.context == nil)
+//@   ensures [C05] l.context != nil ==> fresh(res.context)
+//@   ensures [C03] len(res.hooks) == len(l.hooks) && (forall k in 0..len(l.hooks): res.hooks[k] == l.hooks[k])
+//@   ensures [C05] len(l.hooks) > 0 ==> fresh(res.hooks)
+
+//@ func (Logger).Level(l, lvl) res
+//@   props C03 C05
+//@   arith int
+//@   ensures res.level == lvl && res.w == l.w && res.sampler == l.sampler && same(res.context, l.context) && same(res.hooks, l.hooks) && res.stack == l.stack && res.ctx == l.ctx
+
+//@ func (Logger).Sample(l, s) res
+//@   props C03 C05
+//@   arith int
+//@   ensures res.sampler == s && res.w == l.w && res.level == l.level && same(res.context, l.context) && same(res.hooks, l.hooks) && res.stack == l.stack && res.ctx == l.ctx
+
+//@ func (Context).Logger(c) res
+//@   props C03 C05
+//@   arith int
+//@   ensures res == c.l
+
+//@ func (Context).Stack(c) res
+//@   props C05
+//@   arith int
+//@   ensures res.l.stack && res.l.w == c.l.w && res.l.level == c.l.level && res.l.sampler == c.l.sampler && same(res.l.context, c.l.context) && same(res.l.hooks, c.l.hooks) && res.l.ctx == c.l.ctx
+
+//@ func (Context).Ctx(c, ctx) res
+//@   props C05
+//@   arith int
+//@   ensures res.l.ctx == ctx && res.l.w == c.l.w && res.l.level == c.l.level && res.l.sampler == c.l.sampler && same(res.l.context, c.l.context) && same(res.l.hooks, c.l.hooks) && res.l.stack == c.l.stack
+
+//@ func (*Event).Stack(e) res
+//@   props C03 C05
+//@   arith int
+//@   modifies e.stack
+//@   ensures res == e && (e != nil ==> e.stack)
+
+//@ func (*Event).Ctx(e, ctx) res
+//@   props C05
+//@   arith int
+//@   modifies e.ctx
+//@   ensures res == e && (e != nil ==> e.ctx == ctx)
+
+//@ func (*Event).CallerSkipFrame(e, skip) res
+//@   props C19
+//@   arith int
+//@   flag noovf
+//@   modifies e.skipFrame
+//@   ensures res == e && (e != nil ==> e.skipFrame == old(e.skipFrame) + skip)
